@@ -27,11 +27,22 @@ CONFIG = {
                   "empty out-queue, 65536+j bytes accepted and 65536 released - proved by an inductive characterisation of the run "
                   "(A's cache frozen at the first 128 acks), not by evaluation. C07_window_loop: the model runs the acceptance-window "
                   "loop of InQueue.Append as written (wrapping uint16 counter) and it equals the closed form used by the invariants, "
-                  "for all loop bounds.",
+                  "for all loop bounds. "
+                  "The client's own poll loop (the goroutine Handshake starts): C07_eventual_delivery_by_poll - after ANY history of the "
+                  "multi-write model (Writes given up part-way after five lost exchanges, parked, any fate script) once the path has "
+                  "healed n turns of the loop and nothing else, n >= |A.out|, n >= |B.out|+1, leave both out-queues empty and the server "
+                  "end has released exactly the first Sum-n bytes of the client's stream; proved from C07_eventual_delivery_lossy through "
+                  "the regenerated facts c07PollArg = 0 (a turn hands dc.out.NextChunk(), the oldest unacknowledged fragment, to "
+                  "SendAndReceive) and c07PollStops = 0 (nothing leaves the loop but !dc.Closed()); C07_witness_bare_poll: with "
+                  "SendAndReceive(nil) the leftover of `w1 / ql x5` stays queued and nothing is released for EVERY number of turns (a bare "
+                  "exchange maps the state to itself); C07_poll_period_bounded: a turn sleeps <= selectTimeout + 1.35 s from the regenerated "
+                  "sleep expression. Tied by the dnspoll component: real Handshake(), then only the REAL goroutine moves what is left over.",
     "level_note": "Partial: (1) the theorems are about the queue pair and a queue-level transcription of SendAndReceive/packet; the "
                   "5-try retry loop of SendAndReceive is modelled and proved separately for one fragment (C07_loss_absorbed, tied by the "
-                  "dnsretry component on the real ClientDnsConnection/ServerDnsListener with a scripted communicator); timers, the poll "
-                  "goroutine's timer, and real UDP are not in the model (the poll loop's body and the serializer are driven by dnswrites). "
+                  "dnsretry component on the real ClientDnsConnection/ServerDnsListener with a scripted communicator); real UDP is not in the model; the poll goroutine is driven in real time by dnspoll (after a real Handshake over the in-memory "
+                  "communicator; every history must come to rest within 8 s of a healthy path), its timer enters the model only as the "
+                  "regenerated sleep expression (C07_poll_period_bounded), its give-up rule (errCount > 5 on identical error values) is not "
+                  "modelled; dnswrites' event `p` is an accessor that repeats the loop body, the model's `p` follows the regenerated fact. "
                   "C07_write_reports_enqueued covers the client's accounting; the server->client accounting has no error path (no callback) "
                   "and is checked by the dnswrites monitor only. (2) Hypothesis WellBounded: chunks per Write + replay age + "
                   "MaxCachedChunks + 3 <= 65536; the excluded point (a query replayed >= 65409 exchanges late) corrupts the stream on "
@@ -45,7 +56,8 @@ CONFIG = {
     "technique": "Lean 4 proof (invariant over ghost chunk indices, induction over event histories) + model/code differential correspondence",
     "components": [{"name": "queue", "timeout": {"quick": 600, "thorough": 1500}},
                    {"name": "dnsretry", "timeout": {"quick": 300, "thorough": 600}},
-                   {"name": "dnswrites", "timeout": {"quick": 300, "thorough": 600}}],
+                   {"name": "dnswrites", "timeout": {"quick": 300, "thorough": 600}},
+                   {"name": "dnspoll", "timeout": {"quick": 300, "thorough": 600}}],
     "rule": "queue: one op = one whole history on real InQueue/OutQueue pairs of two endpoints; enumerated: 5x5 starting sequence "
             "numbers {0,127,128,65408,65535} x 8 single-fault patterns, 5 mtus x 7 write-size classes {0,1,mtu-1,mtu,mtu+1,3mtu,3mtu+1}, "
             "8 wrap-crossing histories (start near 65535, > 2*MaxCachedChunks packets, with and without faults), one 66000-packet "
@@ -61,7 +73,13 @@ CONFIG = {
             "{ql,al,st} x {5 losses, 4 losses} + other error, each with poll-then-continue and continue-at-once (Write parks, poll "
             "releases it); double failures incl. inside a resumed Write at starts 65534/65535; passed write deadline; server->client "
             "writes of {0,1,mtu,mtu+1,3mtu,3mtu+1} bytes with losses on the polls; 150 (900) random histories of <= 11 events; "
-            "monitor after every event: released-at-peer is a prefix of the first Sum-n stream bytes; after a loss-free tail: equal",
+            "monitor after every event: released-at-peer is a prefix of the first Sum-n stream bytes; after a loss-free tail: equal. "
+            "dnspoll: one op = real Handshake() (the poll goroutine runs, lazy mode, a turn every <= 150 ms), then Writes in both "
+            "directions, outages of each kind (every exchange: query lost / answer lost / sentinel timeout / other error; the op waits "
+            "until the loop has met each outage at least once) and heals; the harness never polls: after each heal everything queued "
+            "must drain and every parked Write return within 8 s by the real loop alone; enumerated: 4 outage kinds x {single fragment, "
+            "multi-fragment with a Write parked behind the leftover}, outage changing kind, both directions, downstream only sizes "
+            "{0,1,mtu,mtu+1,3mtu+1}, two outages; 6 (40) random histories of 3..8 events",
     "trusted_base": COMMON_TB + ["model SA.Model.Queue hand-written; tied by regenerated facts SA.Gen.c07* and per-history comparison of "
                                  "queue states (next, out seqs, both acked lists, future, buffer digest), released/accepted digests and "
                                  "the per-event trace (ack, seq, payload, error class, Write completion)",
@@ -70,7 +88,11 @@ CONFIG = {
                                  "wrapping) and by the dnsretry component (queries issued, n, error class, server buffer)",
                                  "model SA.Model.DnsWrites (Write's fragment loop + callback + poll + parked Writes over SA.Queue events) tied by "
                                  "the regenerated fact c07WriteCount and by the dnswrites component (per-event n / error class / parked, "
-                                 "Sum n, digests of everything released at both ends, queued sequence numbers, communicator calls)"],
+                                 "Sum n, digests of everything released at both ends, queued sequence numbers, communicator calls)",
+                                 "poll loop (pollBody/pollLoop of SA.Model.DnsWrites) tied by the regenerated facts c07PollArg, c07PollStops, "
+                                 "c07PollUnitUs/Backoff/JitterN/JitterOff (shape of the goroutine in Handshake: one SendAndReceive per turn, guarded only "
+                                 "by the timer and the no-recent-query test) and by the dnspoll component (per-event Write results, Sum n, digests "
+                                 "released at both ends at rest; timing-independent)"],
     "assumptions": ["one sequential writer per endpoint (a Write is issued after the previous one returned)",
                     "mtu > 0 (mtu = 0 makes OutQueue.Write loop forever: outside C07)",
                     "WellBounded: chunks per Write + replay age + MaxCachedChunks + 3 <= 65536",
